@@ -38,3 +38,15 @@ func (s *Service) VerifBuildTrees(ctx context.Context, pl *pipeline.Instance) ([
 func VerifBuildSharedTail(procTasks []funnel.Task, destTasks [][]funnel.Task) ([]*funnel.TaskNode, error) {
 	return (&Service{}).buildSharedTail(procTasks, destTasks)
 }
+
+// VerifBuildRunnable runs the real buildRunnablePipeline on pl and returns the
+// workers (one per source connector, in order) and the shared sink of the
+// runnable pipeline — the objects runPipeline opens, runs and finally closes.
+// Nothing is started or published.
+func (s *Service) VerifBuildRunnable(ctx context.Context, pl *pipeline.Instance) ([]*funnel.Worker, *funnel.Sink, error) {
+	rp, err := s.buildRunnablePipeline(ctx, pl)
+	if err != nil {
+		return nil, nil, err
+	}
+	return rp.workers, rp.sink, nil
+}
